@@ -1,12 +1,11 @@
-"""C09 - variable-length padding, chunking, masked compaction, random shift.
-
-Bounded run-time contracts only so far (contracts/C09_rt.py); the deductive clauses of DESIGN.md
-section 3 (C09.padvar.post, C09.masked.post, C09.shift.bounds) are added here when written.
-"""
-from contracts import C09_rt
+"""C09 - variable-length padding and chunking equal per-sequence pad-and-slice."""
+from contracts import C09_rt, C09_vc
+from vf.pyvc import api
 
 CHECKERS = dict(C09_rt.CHECKERS)
 
 
 def run(ctx):
+    api.run_vcs(ctx, C09_vc.vcs(ctx), {"C09.S.masked_compaction": "real pad_masked_sequence source: lens = selected count; row = selected elements in order then the padding value; all contents and all masks"},
+                bounded="shapes (N,T,F) up to (2,3)/(1,3,2), both layouts; ALL contents, masks and padding values")
     C09_rt.run_bounded(ctx)
